@@ -82,7 +82,10 @@ func refKinds() []refKind {
 		{"ref-into-properties", func(s obj) { use(s, "#/properties/tree") }},
 		{"ref-external", func(s obj) { use(s, "http://example.invalid/schema.json#/definitions/X") }},
 		{"ref-relative-file", func(s obj) { use(s, "other.json") }},
-		{"ref-not-a-string", func(s obj) { use(s, 5); s["allOf"] = []any{obj{"$ref": obj{"a": 1}}, obj{"$ref": nil}, obj{"$ref": []any{"#"}}} }},
+		{"ref-not-a-string", func(s obj) {
+			use(s, 5)
+			s["allOf"] = []any{obj{"$ref": obj{"a": 1}}, obj{"$ref": nil}, obj{"$ref": []any{"#"}}}
+		}},
 		{"ref-escaped-pointer", func(s obj) {
 			s["definitions"] = obj{"a/b": obj{"type": "object", "properties": obj{"again": ref("#/definitions/a~1b")}}, "c~d": ref("#/definitions/c~0d")}
 			use(s, "#/definitions/a~1b")
@@ -121,10 +124,16 @@ func tripKinds() []tripKind {
 		{"property-required-boolean", func(s obj, _ int) { propsOf(s)["n"] = obj{"type": "string", "required": true} }},
 		{"root-required-false", func(s obj, _ int) { s["required"] = false }},
 		{"root-required-string", func(s obj, _ int) { s["required"] = "n" }},
-		{"type-array", func(s obj, _ int) { s["type"] = []any{"object", "null"}; propsOf(s)["n"] = obj{"type": []any{"number", 5}} }},
+		{"type-array", func(s obj, _ int) {
+			s["type"] = []any{"object", "null"}
+			propsOf(s)["n"] = obj{"type": []any{"number", 5}}
+		}},
 		{"type-number", func(s obj, _ int) { s["type"] = 5 }},
 		{"properties-array", func(s obj, _ int) { s["properties"] = []any{1, obj{"type": "string"}} }},
-		{"items-false", func(s obj, _ int) { s["items"] = false; propsOf(s)["n"] = obj{"type": "array", "items": []any{obj{"type": "string"}}} }},
+		{"items-false", func(s obj, _ int) {
+			s["items"] = false
+			propsOf(s)["n"] = obj{"type": "array", "items": []any{obj{"type": "string"}}}
+		}},
 		{"minimum-string", func(s obj, _ int) { propsOf(s)["n"] = obj{"type": "number", "minimum": "0", "maxLength": -1.5} }},
 		{"description-number", func(s obj, _ int) { s["description"] = 5; s["title"] = obj{"a": 1} }},
 		{"enum-huge", func(s obj, big int) {
